@@ -6,14 +6,21 @@
 //!
 //!   input   (c12 e (amb (c re im) …) std)      `std` = the fixed table of 8 assignments below (`envs`), which
 //!                                               lean/QV/C12/Run.lean holds bit for bit (`stdEnvs`)
-//!   output  (out e' (vals xRE xIM xRE' xIM' …)) per assignment: value of e, value of e' (an evaluation error
+//!   output  (out e' (vals xRE xIM xRE' xIM' …) [alt]) per assignment: value of e, value of e' (an evaluation error
 //!                                               — impossible with these assignments — is the atom `e`)
+//!   alt = (alt same u1 u2 mself mout mrev)      the other entry points, on a subset of the cases:
+//!     same   `let mut c = e.clone(); c.simplify()` gives bit for bit the tree of `e.clone().into_simplified()`
+//!     u1 u2  entry [1][1] of `Gate PHASE(e) 0 .to_unitary(1)` / of `PHASE(e')` — `(ok xRE xIM)` or `(err)` (the
+//!            error is formatted with Display and Debug): Gate::to_unitary folds its parameter with the simplifier
+//!     m…     `CalibrationIdentifier RX(a) 0 .matches(Gate RX(b) 0)` for (a,b) = (e,e), (e,e'), (e',e): calibration
+//!            parameter matching compares the simplified parameters
 //!
 //! `amb` matters because expressions are hash-consed with an equality that identifies +0.0 and -0.0: a freshly
 //! computed `-1-0i` is replaced by a live `-1+0i` (see lean/QV/C12/Model.lean, `mkNum`).  Whatever this harness
 //! keeps alive while the real code runs (the leaf alphabet, the enumerated trees) is therefore reported.
 use num_complex::Complex64;
 use quil_rs::expression::{Expression, ExpressionFunction, InfixOperator, PrefixOperator};
+use quil_rs::instruction::{CalibrationIdentifier, Gate, Qubit};
 use qvh::expr::*;
 use qvh::*;
 use std::collections::HashMap;
@@ -69,6 +76,28 @@ impl Emitter {
 
     /// `ambient`: the numbers alive outside `e` while the real code runs.
     fn emit(&self, ctx: &mut Ctx, e: &Expression, ambient: &[Complex64]) {
+        self.emit_opt(ctx, e, ambient, false)
+    }
+
+    /// with the other entry points observed as well
+    fn emit_alt(&self, ctx: &mut Ctx, e: &Expression, ambient: &[Complex64]) {
+        self.emit_opt(ctx, e, ambient, true)
+    }
+
+    /// `e`, then — a sequence of two calls — the implementation's result for `e` as the next input, while `e` is
+    /// still alive (its interned numbers join the ambient ones)
+    fn emit_seq(&self, ctx: &mut Ctx, e: &Expression, ambient: &[Complex64]) {
+        self.emit_opt(ctx, e, ambient, true);
+        let r1 = match std::panic::catch_unwind(std::panic::AssertUnwindSafe(|| e.clone().into_simplified())) {
+            Ok(r) => r,
+            Err(_) => return,
+        };
+        let mut amb2 = ambient.to_vec();
+        live_numbers(e, &mut amb2);
+        self.emit_opt(ctx, &r1, &amb2, true);
+    }
+
+    fn emit_opt(&self, ctx: &mut Ctx, e: &Expression, ambient: &[Complex64], alt: bool) {
         let input = tagged(
             "c12",
             vec![
@@ -78,14 +107,72 @@ impl Emitter {
             ],
         );
         ctx.case(input, || {
+            // the in-place entry point first; its result is dropped before the consuming one runs
+            let in_place = if alt {
+                let mut c = e.clone();
+                c.simplify();
+                Some(expr_to_sexp(&c))
+            } else {
+                None
+            };
             let simplified = e.clone().into_simplified();
             let mut vals: Vec<Sexp> = Vec::with_capacity(4 * self.maps.len());
             for (vars, mem) in &self.maps {
                 push_val(&mut vals, e.evaluate(vars, mem));
                 push_val(&mut vals, simplified.evaluate(vars, mem));
             }
-            tagged("out", vec![expr_to_sexp(&simplified), tagged("vals", vals)])
+            let out_sexp = expr_to_sexp(&simplified);
+            let mut out = vec![out_sexp.clone(), tagged("vals", vals)];
+            if let Some(in_place) = in_place {
+                let phase = |p: &Expression| -> Sexp {
+                    let mut g = Gate::new("PHASE", vec![p.clone()], vec![Qubit::Fixed(0)], vec![]).expect("gate");
+                    match g.to_unitary(1) {
+                        Ok(m) => tagged("ok", vec![f64bits(m[[1, 1]].re), f64bits(m[[1, 1]].im)]),
+                        Err(err) => {
+                            let _ = (format!("{err}"), format!("{err:?}"));
+                            tagged("err", vec![])
+                        }
+                    }
+                };
+                let matches = |a: &Expression, b: &Expression| -> Sexp {
+                    let cal = CalibrationIdentifier::new("RX".to_string(), vec![], vec![a.clone()], vec![Qubit::Fixed(0)])
+                        .expect("identifier");
+                    let gate = Gate::new("RX", vec![b.clone()], vec![Qubit::Fixed(0)], vec![]).expect("gate");
+                    boolean(cal.matches(&gate))
+                };
+                out.push(tagged(
+                    "alt",
+                    vec![
+                        boolean(in_place == out_sexp),
+                        phase(e),
+                        phase(&simplified),
+                        matches(e, e),
+                        matches(e, &simplified),
+                        matches(&simplified, e),
+                    ],
+                ));
+            }
+            tagged("out", out)
         });
+    }
+}
+
+/// the numbers `e` keeps alive as interned nodes: all of them, unless `e` itself is a (then owned) number
+fn live_numbers(e: &Expression, out: &mut Vec<Complex64>) {
+    fn go(e: &Expression, out: &mut Vec<Complex64>) {
+        match e {
+            Expression::Number(z) => out.push(*z),
+            Expression::FunctionCall(f) => go(&f.expression, out),
+            Expression::Prefix(p) => go(&p.expression, out),
+            Expression::Infix(i) => {
+                go(&i.left, out);
+                go(&i.right, out);
+            }
+            _ => {}
+        }
+    }
+    if !matches!(e, Expression::Number(_)) {
+        go(e, out);
     }
 }
 
@@ -138,7 +225,7 @@ fn nest(k: usize, f: impl Fn(Expression) -> Expression, e: Expression) -> Expres
 /// Hand-written witnesses and past failures.  Every expression is a temporary: nothing but the case's own
 /// tree is alive while the real code runs (ambient = []).
 fn corpus(ctx: &mut Ctx, em: &Emitter) {
-    let mut go = |e: Expression| em.emit(ctx, &e, &[]);
+    let mut go = |e: Expression| em.emit_seq(ctx, &e, &[]);
     // --- the three repaired defects (regression witnesses)
     go(div(x(), neg(y()))); // was x * -y
     go(div(neg(x()), y()));
@@ -305,10 +392,14 @@ fn random_stream(ctx: &mut Ctx, em: &Emitter, n: usize, stream: u64, max_depth: 
     let alphabet = Alphabet::full(full_leaves());
     // the alphabet's leaves are owned `Expression`s, not interned nodes: nothing outside the case's tree is alive
     let ambient: Vec<Complex64> = vec![];
-    for _ in 0..n {
+    for k in 0..n {
         let d = 2 + rng.below(max_depth as u64 - 1) as usize;
         let e = random_expr(&mut rng, &alphabet, d);
-        em.emit(ctx, &e, &ambient);
+        if k % 5 == 0 {
+            em.emit_seq(ctx, &e, &ambient);
+        } else {
+            em.emit(ctx, &e, &ambient);
+        }
     }
 }
 
@@ -322,9 +413,13 @@ fn random_arith(ctx: &mut Ctx, em: &Emitter, n: usize, stream: u64) {
         infix: vec![I::Plus, I::Minus, I::Star, I::Slash],
     };
     let ambient: Vec<Complex64> = vec![];
-    for _ in 0..n {
+    for k in 0..n {
         let d = 2 + rng.below(5) as usize;
         let e = random_expr(&mut rng, &alphabet, d);
+        if k % 5 == 0 {
+            em.emit_seq(ctx, &e, &ambient);
+            continue;
+        }
         em.emit(ctx, &e, &ambient);
     }
 }
@@ -352,7 +447,265 @@ fn deep_stream(ctx: &mut Ctx, em: &Emitter, n: usize, stream: u64) {
                 }
             };
         }
-        em.emit(ctx, &e, &ambient);
+        em.emit_seq(ctx, &e, &ambient);
+    }
+}
+
+/// One small expression per rewrite arm (built on demand: nothing stays alive between cases).
+fn redex(i: usize) -> Option<Expression> {
+    Some(match i {
+        0 => add(real(0.0), x()),
+        1 => add(x(), real(0.0)),
+        2 => sub(real(0.0), x()),
+        3 => sub(x(), real(0.0)),
+        4 => sub(add(x(), y()), add(x(), y())),
+        5 => mul(real(0.0), x()),
+        6 => mul(x(), real(0.0)),
+        7 => mul(real(1.0), x()),
+        8 => mul(x(), real(1.0)),
+        9 => div(real(0.0), x()),
+        10 => div(x(), real(0.0)),
+        11 => div(x(), real(1.0)),
+        12 => div(add(x(), y()), add(x(), y())),
+        13 => pow(x(), real(0.0)),
+        14 => pow(real(0.0), x()),
+        15 => pow(real(1.0), x()),
+        16 => pow(x(), real(1.0)),
+        17 => pow(real(2.0), real(3.0)),
+        18 => add(x(), neg(y())),
+        19 => add(neg(x()), y()),
+        20 => sub(x(), neg(y())),
+        21 => sub(neg(x()), y()),
+        22 => mul(neg(x()), neg(y())),
+        23 => div(neg(x()), neg(y())),
+        24 => div(x(), neg(x())),
+        25 => div(neg(x()), x()),
+        26 => mul(x(), neg(y())),
+        27 => div(x(), neg(y())),
+        28 => mul(neg(x()), y()),
+        29 => div(neg(x()), y()),
+        30 => add(add(mul(x(), real(2.0)), y()), add(mul(real(3.0), x()), a0())),
+        31 => add(mul(real(2.0), x()), mul(real(3.0), x())),
+        32 => add(add(x(), y()), add(x(), a0())),
+        33 => add(x(), add(y(), a0())),
+        34 => mul(x(), mul(y(), a0())),
+        35 => sub(x(), sub(y(), a0())),
+        36 => div(x(), div(y(), a0())),
+        37 => add(add(x(), y()), a0()),
+        38 => sub(sub(x(), y()), a0()),
+        39 => div(div(x(), y()), a0()),
+        40 => mul(x(), add(y(), a0())),
+        41 => mul(add(x(), y()), a0()),
+        42 => div(mul(x(), y()), x()),
+        43 => div(mul(pi(), x()), x()),
+        44 => div(x(), mul(y(), x())),
+        45 => div(mul(x(), y()), a0()),
+        46 => div(a0(), mul(x(), y())),
+        47 => mul(div(y(), x()), x()),
+        48 => mul(x(), div(y(), x())),
+        49 => call(Sine, real(2.0)),
+        50 => call(SquareRoot, neg(real(2.0))),
+        51 => neg(pos(x())),
+        52 => neg(neg(x())),
+        53 => neg(real(2.0)),
+        54 => pos(pi()),
+        55 => mul(div(pi(), x()), x()),
+        56 => mul(x(), div(pi(), x())),
+        _ => return None,
+    })
+}
+
+/// the `w`-th wrapper: one more level of nesting around `e`
+fn wrap(w: usize, e: Expression) -> Expression {
+    match w % 8 {
+        0 => pos(e),
+        1 => neg(e),
+        2 => call(Sine, e),
+        3 => add(e, y()),
+        4 => add(y(), e),
+        5 => mul(real(2.0), e),
+        6 => div(e, a0()),
+        _ => pow(e, y()),
+    }
+}
+
+/// Every rewrite arm placed at every distance 5 … 12 from the root (the limit is 10: the arm's node is reached with
+/// limit 5 … 0 and beyond), under uniform and under alternating wrappers.
+fn arm_at_limit(ctx: &mut Ctx, em: &Emitter) {
+    let mut i = 0;
+    while redex(i).is_some() {
+        for w in 0..8usize {
+            for k in 5..=12usize {
+                let uniform = (0..k).fold(redex(i).unwrap(), |acc, _| wrap(w, acc));
+                em.emit_alt(ctx, &uniform, &[]);
+                let mixed = (0..k).fold(redex(i).unwrap(), |acc, j| wrap(w + j * (1 + w % 3), acc));
+                em.emit(ctx, &mixed, &[]);
+            }
+        }
+        i += 1;
+    }
+}
+
+/// The same subtree twice, at a shallow and at a deep position (either order): the memo table, which ignores the
+/// limit, serves the second occurrence with the result computed for the first.
+fn memo_two_limits(ctx: &mut Ctx, em: &Emitter) {
+    let mut i = 0;
+    while redex(i).is_some() {
+        for d1 in 0..3usize {
+            for d2 in 6..=11usize {
+                let w = (i + d2) % 3; // +, -, sin: wrappers that keep the subtree intact
+                let shallow = || (0..d1).fold(redex(i).unwrap(), |acc, _| wrap(w, acc));
+                let deep = || (0..d2).fold(redex(i).unwrap(), |acc, _| wrap(w, acc));
+                if (i + d1 + d2) % 2 == 0 {
+                    em.emit(ctx, &add(deep(), shallow()), &[]);
+                    em.emit(ctx, &mul(shallow(), deep()), &[]);
+                } else {
+                    em.emit(ctx, &mul(deep(), shallow()), &[]);
+                    em.emit(ctx, &add(shallow(), deep()), &[]);
+                }
+            }
+        }
+        i += 1;
+    }
+}
+
+/// Numeric boundary constants (powers of two around the integer widths, the largest and smallest doubles,
+/// subnormals, the `is_zero` threshold and its neighbours, signed zeros, non-finite values, a few complex ones).
+fn boundary_constants() -> Vec<Complex64> {
+    let p = |k: i32| 2f64.powi(k);
+    let tol = 1e-10f64;
+    let mut v: Vec<Complex64> = [
+        0.0,
+        -0.0,
+        1.0,
+        -1.0,
+        2.0,
+        -2.0,
+        3.0,
+        -3.0,
+        4.0,
+        0.5,
+        -0.5,
+        p(31),
+        -p(31),
+        p(31) - 1.0,
+        p(31) + 1.0,
+        p(32),
+        -p(32),
+        p(32) + 2.0,
+        p(53),
+        p(53) + 2.0,
+        -p(53),
+        p(63),
+        p(64),
+        1e308,
+        f64::MAX,
+        -f64::MAX,
+        f64::MIN_POSITIVE,
+        5e-324,
+        -5e-324,
+        1e-300,
+        tol,
+        f64::from_bits(tol.to_bits() - 1),
+        f64::from_bits(tol.to_bits() + 1),
+        1e-11,
+        1e-9,
+        1.0 + 1e-11,
+        1.0 - 1e-11,
+        1.0 + 2e-10,
+        1e10,
+        1e16,
+        std::f64::consts::PI,
+        -std::f64::consts::PI,
+        std::f64::consts::FRAC_PI_2,
+        f64::INFINITY,
+        f64::NEG_INFINITY,
+        f64::NAN,
+    ]
+    .iter()
+    .map(|r| c(*r, 0.0))
+    .collect();
+    v.extend([
+        c(0.0, 1.0),
+        c(0.0, -1.0),
+        c(1.0, 1.0),
+        c(-1.0, -0.0),
+        c(0.0, -0.0),
+        c(1.0, 1e-11),
+        c(7e-11, 7e-11),
+        c(8e-11, 8e-11),
+        c(0.0, 1e-10),
+        c(2.0, p(31)),
+        c(0.0, f64::INFINITY),
+    ]);
+    v
+}
+
+/// Every boundary constant in every operand position of every operator, against every other constant (the
+/// constant-folding arm and every `is_zero` / `is_one` guard) and against a variable; under every function and prefix.
+fn boundary_stream(ctx: &mut Ctx, em: &Emitter, stride: usize) {
+    let cs = boundary_constants();
+    let n = |z: &Complex64| Expression::Number(*z);
+    let mut i = 0usize;
+    let mut keep = |always: bool| {
+        i += 1;
+        always || (i - 1) % stride == 0
+    };
+    for a in &cs {
+        for f in ALL_FUNCTIONS {
+            if keep(true) {
+                em.emit_alt(ctx, &call(f, n(a)), &[]);
+            }
+        }
+        for o in ALL_PREFIX {
+            if keep(true) {
+                em.emit(ctx, &prefix(o, n(a)), &[]);
+            }
+        }
+        for o in ALL_INFIX {
+            if keep(true) {
+                em.emit(ctx, &infix(n(a), o, x()), &[]);
+                em.emit(ctx, &infix(x(), o, n(a)), &[]);
+                em.emit(ctx, &infix(infix(n(a), o, x()), o, n(a)), &[]);
+            }
+        }
+    }
+    for a in &cs {
+        for b in &cs {
+            for o in ALL_INFIX {
+                if keep(false) {
+                    em.emit(ctx, &infix(n(a), o, n(b)), &[]);
+                }
+            }
+        }
+    }
+    // negative bases with integral exponents of every size
+    for base in [-1.0, -2.0, -0.5, -3.0] {
+        for k in [2, 3, 4, 31, 32, 33, 52, 53, 54, 62, 63, 64, 100, 1023] {
+            for d in [-2.0, -1.0, 0.0, 1.0, 2.0] {
+                let e = 2f64.powi(k) + d;
+                em.emit(ctx, &pow(real(base), real(e)), &[]);
+                em.emit(ctx, &pow(real(base), neg(real(e))), &[]);
+                em.emit(ctx, &pow(neg(real(-base)), real(e)), &[]);
+            }
+        }
+    }
+}
+
+/// random trees whose numeric leaves are boundary constants
+fn random_boundary(ctx: &mut Ctx, em: &Emitter, n: usize, stream: u64) {
+    let mut rng = ctx.rng(stream);
+    let cs = boundary_constants();
+    for _ in 0..n {
+        let mut leaves = vec![x(), y(), a0(), pi()];
+        for _ in 0..4 {
+            leaves.push(Expression::Number(*rng.pick(&cs)));
+        }
+        let alphabet = Alphabet::full(leaves);
+        let d = 2 + rng.below(3) as usize;
+        let e = random_expr(&mut rng, &alphabet, d);
+        drop(alphabet);
+        em.emit(ctx, &e, &[]);
     }
 }
 
@@ -399,4 +752,10 @@ fn run(ctx: &mut Ctx) {
     random_stream(ctx, &em, if quick { 8_000 } else { 200_000 }, 12, 6);
     random_arith(ctx, &em, if quick { 8_000 } else { 200_000 }, 1212);
     deep_stream(ctx, &em, if quick { 1_500 } else { 30_000 }, 121212);
+    random_boundary(ctx, &em, if quick { 4_000 } else { 100_000 }, 12121212);
+
+    // 4. boundaries: numeric constants, the limit, the memo table
+    boundary_stream(ctx, &em, if quick { 3 } else { 1 });
+    arm_at_limit(ctx, &em);
+    memo_two_limits(ctx, &em);
 }
